@@ -811,7 +811,11 @@ pub fn plan_world(ws: u64, corpus: &Corpus, o: &PlanOpts) -> World {
         }
         if f & F_CLOCK != 0 {
             cfg.clock_epoch_ns = (rng.next_u64() % 4_000_000_000_000_000_000) as i64;
-            cfg.clock_step_ns = *rng.pick(&[1i64, 1000, 1_000_000, 999_999_937, 0, 61_000_000_000, 3_600_000_000_000, 86_400_000_000_000]);
+            // (a negative step: a wall clock that is set back between two reads)
+            cfg.clock_step_ns = *rng.pick(&[1i64, 1000, 1_000_000, 51_000_000, 999_999_937, 0, 61_000_000_000, 3_600_000_000_000, 86_400_000_000_000, -1_000_000_000, -86_400_000_000_000]);
+            if cfg.clock_step_ns < 0 && cfg.clock_epoch_ns < 1_000_000_000_000_000_000 {
+                cfg.clock_epoch_ns += 1_000_000_000_000_000_000;
+            }
         }
         if f & F_PID != 0 {
             cfg.pid = 2 + (rng.next_u64() % 4_000_000) as u32;
